@@ -543,6 +543,12 @@ class SampleList(SampleListBase):
         _ensure_proper_sample_list_ending(_sample_file_name(file_name_base, self.n_samples),
                                           overwrite, self.comm)
 
+        # A plain sample list has no mean file; remove the one of a
+        # ResidualSampleList that was saved under the same name before
+        with ensure_all_tasks_succeed(self.comm):
+            if self.MPI_master and overwrite:
+                pathlib.Path(f"{file_name_base}.mean.pickle").unlink(missing_ok=True)
+
         # Save samples
         with ensure_all_tasks_succeed(self.comm):
             for ii, isample in enumerate(self.local_indices):
